@@ -5,6 +5,8 @@ CONSTANTS
   FixedAlter = FALSE
   MaxPersists = 3
   MaxDeletes = 2
+  MaxLoads = 1
+  DirectLoad = FALSE
   FirstOnlyModified = FALSE
-INVARIANTS LayersParallel IndexesAgree StatsExact ReopenSeesAll BtreeCount DurableIndexesAgree
+INVARIANTS QueueFits LayersParallel IndexesAgree StatsExact ReopenSeesAll BtreeCount DurableIndexesAgree
 CHECK_DEADLOCK FALSE
